@@ -322,6 +322,11 @@ class Inliner:
         _renumber(body, off)
         _renumber(params, off)
         self.monomorphise(body, h, n)
+        # a moved item that several pinned paths now name is spelled the way the CALLER's module spells it
+        rs = getattr(self.prog, "_respell_back", None)
+        if rs is not None:
+            cf = self.prog.fn(caller)
+            rs(body, (cf or {}).get("module", ""))
         env, lets, betas = {}, [], []
         for p, a in zip(params, args):
             simple = p.get("k") == "pbind" and "Mut)" not in p.get("mode", "") and not p.get("sub")
